@@ -1519,7 +1519,7 @@ def run(ctx):
                     'probes are executed against the installed numpy/astropy/scipy on every run',
                     'value abstraction: a Python value = the set of buffers reachable from it; "unchanged" = no write '
                     'through any alias (version counters)']
-    scale = 1.0 if ctx.tier == 'quick' else 6.0
+    scale = 1.0 if ctx.tier == 'quick' else 12.0
     found = dynamic_sweep(ctx, scale)
     check_tables(ctx)
     static_obligations(ctx, found)
